@@ -68,10 +68,10 @@ func checkReferenceRecordName(c *core.Ctx, rule string) {
 		pos = f.Pos()
 		n := 0
 		scope := map[*ssa.Function]bool{}
-		calleesOf(f, 2, scope)
+		calleesOf(f, 3, scope)
 		var scoped []*ssa.Function
 		for g := range scope {
-			if g.Pkg != nil && (g == f || c.RelOf(g.Pkg.Pkg) == e.pkg) && g.Parent() == nil {
+			if g.Pkg != nil && (g == f || c.RelOf(g.Pkg.Pkg) != "") && g.Parent() == nil { // helpers in any package of the repository (the record may be built by the annotation package itself)
 				scoped = append(scoped, g)
 			}
 		}
@@ -139,8 +139,51 @@ func derefType(t types.Type) types.Type {
 }
 
 // sameLoad: the same constant, or loads of the same field of the same variable.
+// accessPath names a value by where it is read from: a chain of field selections and loads rooted in a local variable,
+// a parameter or a call result ("" when the value is not of that shape). Two reads with the same path read the same
+// storage (the rule is a necessary condition: stores in between are not considered).
+func accessPath(v ssa.Value, d int) string {
+	if d > 8 || v == nil {
+		return ""
+	}
+	switch x := v.(type) {
+	case *ssa.Parameter:
+		return "param:" + x.Name()
+	case *ssa.Alloc:
+		return fmt.Sprintf("local:%p", x)
+	case *ssa.FreeVar:
+		return "free:" + x.Name()
+	case *ssa.Field:
+		if st, ok := x.X.Type().Underlying().(*types.Struct); ok {
+			if p := accessPath(x.X, d+1); p != "" {
+				return p + "." + st.Field(x.Field).Name()
+			}
+		}
+	case *ssa.FieldAddr:
+		if st, ok := derefType(x.X.Type()).Underlying().(*types.Struct); ok {
+			if p := accessPath(x.X, d+1); p != "" {
+				return p + "." + st.Field(x.Field).Name()
+			}
+		}
+	case *ssa.UnOp:
+		if x.Op == token.MUL {
+			return accessPath(x.X, d+1)
+		}
+	case *ssa.Extract:
+		if call, ok := x.Tuple.(*ssa.Call); ok {
+			return fmt.Sprintf("result%d:%p", x.Index, call)
+		}
+	case *ssa.Call:
+		return fmt.Sprintf("result:%p", x)
+	}
+	return ""
+}
+
 func sameLoad(a, b ssa.Value) bool {
 	if sameExpr(a, b, 0) {
+		return true
+	}
+	if pa, pb := accessPath(a, 0), accessPath(b, 0); pa != "" && pa == pb {
 		return true
 	}
 	ua, ok1 := a.(*ssa.UnOp)
